@@ -147,7 +147,7 @@ impl HistKnobs {
             max_ops: 4,
             max_clients: 3,
             min_clients: 2,
-            model: ModelKnobs { max_window: 2, max_type_window: 1, core_only: true, allow_big_windows: false, max_entries: 3, want_tags: None },
+            model: ModelKnobs { max_window: 2, max_type_window: 1, core_only: true, extreme_values: false, allow_big_windows: false, max_entries: 3, want_tags: None },
             max_text: 6,
         }
     }
@@ -212,7 +212,7 @@ fn gen_update(rng: &mut Rng, k: &HistKnobs, ctor: bool, recent: &mut Vec<Vec<cha
     // the three formats, about 45 % of the annotated inputs being exact renderings with
     // generator ground truth attached; a quarter of the inputs are related to earlier ones
     let related = !recent.is_empty() && rng.chance(1, 4);
-    let mut remember = |cs: Vec<char>, recent: &mut Vec<Vec<char>>| {
+    let remember = |cs: Vec<char>, recent: &mut Vec<Vec<char>>| {
         if !cs.is_empty() && !cs.contains(&'\0') {
             if recent.len() >= 4 {
                 recent.remove(0);
